@@ -168,9 +168,21 @@ Definition return_table (r : option table) : presult :=
 (** * the lock discipline as an ordered event list                             *)
 (* ------------------------------------------------------------------------- *)
 
+(** how a lock is asked for.  ASSUMPTION of the interleaving model (Lock.v) and of
+    the "after every poll the file shows that poll's table" reading of C12: a
+    process WAITS for a held lock ([AcqWait]: `acquire(timeout=<positive>)`, it
+    gives up only after that time; Lock.step's [give_up]).  A non-blocking
+    attempt ([AcqTry]: `acquire(blocking=False)` / `timeout=0`) drops the write
+    of a poll whenever a reader holds the lock even briefly -- safe in the sense
+    of C12_atomic, but not what the source is modelled as. *)
+Inductive acq : Type :=
+| AcqWait                              (* acquire(timeout=<positive number>) *)
+| AcqForever                           (* acquire() / `with lock:`  (never Timeout) *)
+| AcqTry.                              (* acquire(blocking=False) / acquire(timeout=0) *)
+
 Inductive levent : Type :=
 | EExists (file : str)                 (* os.path.exists(join(dir, file)) *)
-| EAcquire (lockfile : str) (timed : bool)   (* enter `with FileLock(join(dir, lockfile)).acquire(timeout=..)` / `with lock` *)
+| EAcquire (lockfile : str) (how : acq)   (* enter `with FileLock(join(dir, lockfile)).acquire(..)` / `with lock` *)
 | EOpen (file : str) (mode : str)      (* enter `with open(join(dir, file), mode)` *)
 | EWrite                               (* f.write(text) *)
 | ERead                                (* csvtable_to_dict(f) *)
@@ -188,11 +200,11 @@ Definition status_file : str := s "status.csv".
 Definition pc_events (p : pc) (todo : list job) (f : option str) : list levent :=
   match p with
   | Idle => match todo with JRead :: _ => [EExists status_file] | _ => [] end
-  | WAcq _ => [EAcquire lock_file true]
+  | WAcq _ => [EAcquire lock_file AcqWait]
   | WOpen _ => [EOpen status_file (s "w+")]
   | WWrite (_ :: _) _ => [EWrite]
   | WWrite [] _ => [EClose; ERelease]
-  | RAcq => [EAcquire lock_file true]
+  | RAcq => [EAcquire lock_file AcqWait]
   | ROpen => [EOpen status_file (s "r")]
   | RRead acc =>
     match f with
